@@ -313,6 +313,9 @@ func filterDomain(d [4]uint64, v *Term, c *Term) (r [4]uint64, count int, last i
 // learn maintains the value sets of variables of at most 8 bits and pins a variable when
 // a single value remains.
 func (st *State) learn(c *Term) {
+	if dbgOff["learn"] {
+		return
+	}
 	c = st.subst(c)
 	v := soleVar(c)
 	if v == nil {
